@@ -1650,3 +1650,36 @@ package query
 //@   loop 2 invariant i < lagIdx ==> expr.IgnoreNulls()
 //@   loop 2 invariant val == defaultValue
 //@   modifies *
+
+// C14 / C17: evaluating an analytic function never stores into a slice of the syntax tree (its argument list is shared with
+// the query that is being evaluated and with every later evaluation of it). COUNT(*) OVER () used to replace its argument
+// in place, after which the select list could not find the result column any more (fix in /repo: "COUNT(*) OVER () counts ...").
+//@ func Analyze
+//@   property C14 C17
+//@   abstract *
+//@   ownwrites E:parser.QueryExpression#
+//@   modifies *
+
+// C04: what goes into a comparison key. Texts are escaped (the key separator must not occur bare inside a text: two
+// different lists of values would share a key), and the negative zero is given the key of zero in the normalising
+// encoder. Strings are uninterpreted in this engine, so the contracts state that the escaping / normalising step is taken
+// (ghost counters) and what normalizeFloatKey computes on the two literals it distinguishes.
+//@ ghost var textsEscaped int
+//@ ghost var floatKeysNormalized int
+//@ func escapeKeyText
+//@   trusted assumed: returns the text with ':' and '\' escaped (injective; texts without them are returned unchanged)
+//@   ghostset textsEscaped = textsEscaped + 1
+//@   modifies textsEscaped
+//@ func serializeString
+//@   property C04
+//@   ensures [text-is-escaped-before-it-enters-the-key] textsEscaped == old(textsEscaped) + 1
+//@   modifies textsEscaped
+//@ func serializeCaseSensitiveString
+//@   property C04
+//@   ensures [text-is-escaped-before-it-enters-the-key] textsEscaped == old(textsEscaped) + 1
+//@   modifies textsEscaped
+//@ func normalizeFloatKey
+//@   property C04
+//@   ghostset floatKeysNormalized = floatKeysNormalized + 1
+//@   ensures [negative-zero-gets-the-key-of-zero] (s == "-0" ==> result == "0") && (s != "-0" ==> result == s)
+//@   modifies floatKeysNormalized
